@@ -42,6 +42,9 @@ type node struct {
 	failAt   int // 1-based index of the fetch call that fails, 0: none
 	failed   bool
 	belowLog int // fetches below base (must stay 0: the harness keeps enough history)
+	// the node reorganises midDepth blocks right after it answered the midAt-th fetch call of the poll (0: never)
+	midAt, midDepth int
+	midDone         bool
 }
 
 func newNode(mem int64, history int64) *node {
@@ -100,10 +103,19 @@ func (n *node) inject() error {
 	return nil
 }
 
+// afterCall runs once the current fetch call has computed its answer.
+func (n *node) afterCall() {
+	if n.midAt != 0 && n.calls == n.midAt && !n.midDone {
+		n.midDone = true
+		n.reorg(n.midDepth)
+	}
+}
+
 func (n *node) FetchLatestBlockNum(ctx context.Context) (int64, error) {
 	if err := n.inject(); err != nil {
 		return 0, err
 	}
+	defer n.afterCall()
 	return n.reported(), nil
 }
 
@@ -121,7 +133,9 @@ func (n *node) FetchBlockHashByNum(ctx context.Context, h int64) (string, error)
 		n.belowLog++
 		return "", fmt.Errorf("block %d below the simulated history", h)
 	}
-	return n.hashes[h-n.base], nil
+	res := n.hashes[h-n.base]
+	n.afterCall()
+	return res, nil
 }
 
 // ---------------------------------------------------------------------------------------------
@@ -368,6 +382,7 @@ type opdef struct {
 	name   string
 	act    action
 	failAt int
+	midAt  int // the node reorganises 2 blocks right after answering this fetch call of the poll (0: never)
 }
 
 type scen struct {
@@ -422,6 +437,13 @@ func newScen(m int64, pruned bool) *scen {
 			s.names = append(s.names, n)
 		}
 	}
+	// the node changes WHILE it is being polled: one new block before the poll, and a reorganisation of its top two
+	// blocks right after it answered the k-th fetch call of that poll
+	for k := 1; k <= M+2; k++ {
+		n := fmt.Sprintf("+1|reorg2-after-call@%d", k)
+		s.ops = append(s.ops, opdef{name: n, act: action{name: "+1", grow: 1}, midAt: k})
+		s.names = append(s.names, n)
+	}
 	return s
 }
 
@@ -468,12 +490,25 @@ func (s *scen) Apply(op int) bfs.Step {
 
 	before := f.snapshot()
 	nd.calls, nd.failAt, nd.failed = 0, o.failAt, false
+	nd.midAt, nd.midDepth, nd.midDone = o.midAt, 2, false
 	f.forkLog, f.cbLog = nil, nil
 	err := f.ct.VerifPoll(context.Background())
 	after := f.snapshot()
 	if o.failAt > 0 && !nd.failed {
 		// the poll made fewer fetch calls than the injection index: same behaviour as the op without injection
 		return bfs.Step{Accepted: false, Obs: "inject-unreached"}
+	}
+	nd.midAt = 0
+	if o.midAt > 0 {
+		if !nd.midDone {
+			return bfs.Step{Accepted: false, Obs: "mid-poll-reorg-unreached"}
+		}
+		if nd.belowLog > 0 {
+			return bfs.Step{Accepted: true, Prune: true, Obs: "harness-history", Viol: []ev.Violation{viol("harness:history-too-short", "the tracker asked for a block below the simulated history")}}
+		}
+		// the poll raced with the node: what the tracker holds right now may be a mix of both views; nothing is demanded
+		// of this poll, the following polls (on a node that is quiet again) must bring the tracker back in line
+		return bfs.Step{Accepted: true, Obs: "raced-with-reorg"}
 	}
 	if nd.belowLog > 0 {
 		return bfs.Step{Accepted: true, Prune: true, Obs: "harness-history", Viol: []ev.Violation{viol("harness:history-too-short", "the tracker asked for a block below the simulated history")}}
@@ -637,7 +672,7 @@ func init() {
 			qgrid = append(qgrid, fmt.Sprintf("m=%d: %d^3+%d^3", m, m+2, m+3))
 		}
 		run.Set("exhaustive", exh)
-		run.Set("bound", fmt.Sprintf("blocksToSave in %v, archive node and node pruned to blocksToSave blocks; all sequences of up to %d polls; before each poll the node does one of: nothing, +1/+2/+(m-1)/+m/+(m+1) blocks, reorg of depth 1..m+1 with 0/1/2/m new blocks on top, reorg of depth 2 onto a branch one block shorter, reports latest-1 (with/without serving the block above); each poll without error or with one injected fetch error at the i-th fetch call for every i; after every successful poll all (from,to,specific) over {NOT_APPLICABLE, LATEST-k (k=0..m)} and all over {NOT_APPLICABLE, absolute latest-k (k=-1..m)} (%s); initial fetch with one injected error at every call position", ms, depth, strings.Join(qgrid, ", ")))
+		run.Set("bound", fmt.Sprintf("blocksToSave in %v, archive node and node pruned to blocksToSave blocks; all sequences of up to %d polls; before each poll the node does one of: nothing, +1/+2/+(m-1)/+m/+(m+1) blocks, reorg of depth 1..m+1 with 0/1/2/m new blocks on top, reorg of depth 2 onto a branch one block shorter, reports latest-1 (with/without serving the block above), or produces one block and reorganises its top two blocks right after answering the k-th fetch call of the poll (k=1..m+2); each poll without error or with one injected fetch error at the i-th fetch call for every i; after every successful poll all (from,to,specific) over {NOT_APPLICABLE, LATEST-k (k=0..m)} and all over {NOT_APPLICABLE, absolute latest-k (k=-1..m)} (%s); initial fetch with one injected error at every call position", ms, depth, strings.Join(qgrid, ", ")))
 		run.Assume("one node state per poll: the node does not change while a poll is running")
 		run.Assume("every block ever produced has a fresh hash (equal hash => equal block => equal ancestors); a branch that was reorganised away does not come back")
 		run.Assume("states are merged modulo translation of heights and renaming of hashes (the tracker only compares hashes of equal heights and uses height differences)")
